@@ -15,8 +15,18 @@ from . import decoders as D
 from .core import Clause, Dev, child_python
 
 CHILD = r"""
-import json, sys
+import json, sys, os
 sys.path.insert(0, sys.argv[2])
+if os.environ.get("VERIF_CHILD_LOGGING"):
+    # the application has switched its logging to DEBUG (root logger and the library's own logger); records go to a null stream
+    import logging
+    logging.basicConfig(level=logging.DEBUG, stream=open(os.devnull, "w"))
+    logging.getLogger("spacepackets").setLevel(logging.DEBUG)
+    try:
+        import spacepackets
+        spacepackets.get_lib_logger().setLevel(logging.DEBUG)
+    except Exception:
+        pass
 from vf import envcheck
 units = json.loads(sys.stdin.read()) if False else json.loads(sys.argv[3])
 sys.stdout.write(json.dumps([envcheck.observe(u) for u in units]))
@@ -102,10 +112,11 @@ def make_check(flags, env_extra=None, label=None):
 
 def env_clauses(prop_id, families, n_quick=6, n_thorough=60):
     out = []
-    for tag, flags, env_extra in (("O", ("-OO",), None), ("W_error", ("-W", "error"), None), ("hashseed", (), {"PYTHONHASHSEED": "424242"})):
+    for tag, flags, env_extra in (("O", ("-OO",), None), ("W_error", ("-W", "error"), None), ("hashseed", (), {"PYTHONHASHSEED": "424242"}), ("bb", ("-bb",), None),
+                                  ("debug_logging", (), {"VERIF_CHILD_LOGGING": "DEBUG"})):
         out.append(Clause(
             id=f"{prop_id}.interpreter_{tag}",
-            doc=f"the decoders of {', '.join(families)} run in a child interpreter started with {' '.join(flags) or 'another hash seed (PYTHONHASHSEED=424242; this process runs with 0)'} give, "
+            doc=f"the decoders of {', '.join(families)} run in a child interpreter started with {' '.join(flags) or ('another hash seed (PYTHONHASHSEED=424242; this process runs with 0)' if tag == 'hashseed' else 'logging switched to DEBUG (root and library logger)')} give, "
                 "unit by unit, the outcome, observed fields, reported length, public properties and re-packed octets they give in this process (valid units and prefixes of valid units)",
             strategy=(lambda families=families: st_units(families)), check=make_check(flags, env_extra, tag),
             classify=lambda units: ["has truncated unit"] if any(True for u in units) else [], weight_by_evals=True,
